@@ -13,6 +13,55 @@ EXPLANATION = ("presentation invariance as symmetry lemmas over the contracts: w
                "guard of the QHA hand-over on symbolic volumes with all comparison paths; end-to-end re-presentations are a bounded stand-in")
 
 
+def static_columns():
+    """[F over systems x presentations] the same static table written with its modulus columns in several orders and letter cases, read and symmetry-filled one after the
+    other IN ONE PROCESS: every presentation gives the same canonical-key table (a result that depends on which presentation was seen first is a re-presentation defect)"""
+    import sympy as sp
+    from specs import laue
+    ed = importlib.import_module("cij.io.traditional.elast_dat")
+    rnd = numpy.random.RandomState(21)
+    tmp = tempfile.mkdtemp(prefix="c13cols_")
+    n = 0
+    try:
+        for system in ("cubic", "hexagonal", "trigonal7", "orthorhombic", "monoclinic"):
+            basis = numpy.array([[float(sp.N(x)) for x in v] for v in laue.invariant_basis(system)])
+            tens = rnd.uniform(50, 400, size=(3, len(basis))) @ basis
+            chosen = []
+            for k in rnd.permutation(21):
+                if numpy.linalg.matrix_rank(basis[:, chosen + [int(k)]], tol=1e-9) > len(chosen):
+                    chosen.append(int(k))
+            names = ["c%d%d" % (i, j) for i in range(1, 7) for j in range(i, 7)]
+            results = []
+            for pres in range(4):
+                cols = list(chosen)
+                if pres:
+                    rnd.shuffle(cols)
+                label = lambda k: names[k].upper() if pres in (2, 3) else names[k]
+                path = os.path.join(tmp, "t%s%d" % (system, pres))
+                with open(path, "w") as fp:
+                    fp.write("# static table\n%12.4f %d %12.4f\n" % (600.0, 3, 120.0))
+                    fp.write("V " + " ".join(label(k) for k in cols) + "\n")
+                    for r_ in range(3):
+                        fp.write("%12.4f " % (600.0 - 50 * r_) + " ".join("%16.8f" % tens[r_, k] for k in cols) + "\n")
+                try:
+                    data = ed.read_elast_data(path)
+                    ed.apply_symetry_on_elast_data(data, {"system": system})
+                except Exception as e:
+                    return core.refuted("finite", "%s, presentation %d (columns %s): %r" % (system, pres, [label(k) for k in cols], e), witness_id="columns:%s" % system,
+                                        replay={"reproduced": True, "system": system, "columns": [label(k) for k in cols]})
+                n += 1
+                results.append({k: [float(v.static_elastic_modulus[k]) for v in data.volumes] for k in data.volumes[0].static_elastic_modulus})
+            for pres, r_ in enumerate(results[1:], 1):
+                if set(r_) != set(results[0]) or any(not numpy.allclose(r_[k], results[0][k], rtol=1e-9, atol=1e-7) for k in r_):
+                    bad = [repr(k) for k in r_ if k not in results[0] or not numpy.allclose(r_[k], results[0][k], rtol=1e-9, atol=1e-7)]
+                    return core.refuted("finite", "%s: the table with its columns reordered%s gives different components %s than the first presentation read in this process"
+                                        % (system, " and upper-cased" if pres > 1 else "", bad[:6]), witness_id="columns:%s" % system,
+                                        replay={"reproduced": True, "system": system, "first": {repr(k): v for k, v in results[0].items()}, "later": {repr(k): v for k, v in r_.items()}})
+    finally:
+        shutil.rmtree(tmp, ignore_errors=True)
+    return core.proved("finite", "%d reads + symmetry fills (5 systems x 4 presentations, one process): identical canonical tables" % n)
+
+
 def native_presentations():
     """bounded fall-back of the symmetry lemmas: the real average_over_modes on concrete arrays (sizes on both sides of every size the code distinguishes) under a
     common weight factor, a permutation of the non-Gamma q-points with their weights, and a permutation of the modes that fixes the Gamma-acoustic slots"""
@@ -111,6 +160,7 @@ def run(s):
     s.oblige("C13.eulerian_strain_definition", eulerian_def, ["qha.grid_interpolation.calculate_eulerian_strain (dependency)"], kind="finite")
 
     # ---------------- static rows reordered: parse + fit on the real reader (no QHA needed)
+    s.oblige("C13.static_columns_reordered_or_upper_cased(same process)", static_columns, ["elast_dat.read_elast_data", "elast_dat.apply_symetry_on_elast_data", "fill.fill_cij"], kind="finite")
     s.oblige("C13.static_rows_reordered", lambda: static_rows(s), ["elast_dat.read_elast_data", "full_modulus.FullThermalElasticModulus.get_static_modulus",
                                                                    "full_modulus.FullThermalElasticModulus.get_axial_strains"], kind="finite")
 
@@ -151,7 +201,7 @@ def run(s):
         from vf import lean
         s.oblige("C13.lemmas.FiniteSums(lean)", lambda: lean.check_file("lemmas/FiniteSums.lean"), ["lemmas/FiniteSums.lean (sum rules: linearity, congruence, combination, "
                                                                                                      "positivity, permutation, weight scaling)"])
-    s.min_obligations = 7
+    s.min_obligations = 8
 
 
 def native_volume_order(qa):
